@@ -110,6 +110,110 @@ theorem migrate_ok_not_blocked {s s' : State} {frm to : Addr} {sigOk : Bool} (h 
   rename_i hb
   simpa using hb
 
+/-! ## the message server: regenerated program = hand-written reading -/
+
+/-- the statement list of `MigrateAccount` and the handlers registered in the app wiring, as read from the source -/
+theorem handler_lists_from_code :
+    Gen.C14.handlerOrder = ["check-record-from", "check-record-to", "check-from-account", "validate-all",
+                            "execute-all", "set-record"] ∧
+    Gen.C14.migrateHandlers = ["NewBankMigrate", "NewDistrStakingMigrate", "NewGovMigrate"] := by decide
+
+theorem handlerValidate_code (c : Cfg) (s : State) (frm to : Addr) :
+    handlerValidate c s frm to "NewBankMigrate" = none ∧
+    handlerValidate c s frm to "NewDistrStakingMigrate" = stakingValidate c s frm to ∧
+    handlerValidate c s frm to "NewGovMigrate" = (if govRefuses c s frm to then some .gov else none) := by
+  have t1 : handlerType "NewBankMigrate" = "BankMigrate" := by decide
+  have t2 : handlerType "NewDistrStakingMigrate" = "DistrStakingMigrate" := by decide
+  have t3 : handlerType "NewGovMigrate" = "GovMigrate" := by decide
+  have b1 : bodyNil ("BankMigrate" ++ ".Validate") = true := by decide
+  have b2 : bodyNil ("DistrStakingMigrate" ++ ".Validate") = false := by decide
+  have b3 : bodyNil ("GovMigrate" ++ ".Validate") = false := by decide
+  refine ⟨?_, ?_, ?_⟩
+  · simp only [handlerValidate, t1, b1, ↓reduceIte]
+  · simp only [handlerValidate, t2, b2, Bool.false_eq_true, ↓reduceIte, beq_self_eq_true]
+  · simp only [handlerValidate, t3, b3, Bool.false_eq_true, ↓reduceIte, beq_self_eq_true]
+    rfl
+
+
+theorem handlerExecute_code (c : Cfg) (s : State) (frm to : Addr) :
+    handlerExecute c frm to s "NewBankMigrate" =
+      (if bankBlocked c s frm then .error .exec else .ok (bankExecute c s frm to)) ∧
+    handlerExecute c frm to s "NewDistrStakingMigrate" = .ok (stakingExecute c s frm to) ∧
+    handlerExecute c frm to s "NewGovMigrate" = .ok s := by
+  have t1 : handlerType "NewBankMigrate" = "BankMigrate" := by decide
+  have t2 : handlerType "NewDistrStakingMigrate" = "DistrStakingMigrate" := by decide
+  have t3 : handlerType "NewGovMigrate" = "GovMigrate" := by decide
+  have b1 : bodyNil ("BankMigrate" ++ ".Execute") = false := by decide
+  have b2 : bodyNil ("DistrStakingMigrate" ++ ".Execute") = false := by decide
+  have b3 : bodyNil ("GovMigrate" ++ ".Execute") = true := by decide
+  have n1 : ("DistrStakingMigrate" == "BankMigrate") = false := by decide
+  refine ⟨?_, ?_, ?_⟩
+  · simp only [handlerExecute, t1, b1, Bool.false_eq_true, ↓reduceIte, beq_self_eq_true]
+  · simp only [handlerExecute, t2, b2, n1, Bool.false_eq_true, ↓reduceIte, beq_self_eq_true]
+  · simp only [handlerExecute, t3, b3, ↓reduceIte]
+
+/-- **the message server as regenerated program = the hand-written reading**: interpreting the statement list of
+`Keeper.MigrateAccount` over the handlers registered in the app wiring (both regenerated from the source on every run)
+gives, for every state, pair and signature verdict, exactly `migrate` — the function all theorems of this file are
+about.  The driver runs the interpretation; if a statement is moved, dropped or added, or a handler is unregistered or
+its `Validate` / `Execute` becomes / stops being a bare `return nil`, this stops checking while the driver follows the
+code. -/
+theorem handler_program_as_modelled (s : State) (frm to : Addr) (sigOk : Bool) :
+    migrateProg cfg Gen.C14.handlerOrder Gen.C14.migrateHandlers s frm to sigOk = migrate cfg s frm to sigOk := by
+  rw [handler_lists_from_code.1, handler_lists_from_code.2]
+  unfold migrateProg migrate
+  split
+  · rfl
+  split
+  · rfl
+  have q1 : ("check-record-to" == "check-record-from") = false := by decide
+  have q2 : ("check-from-account" == "check-record-from") = false := by decide
+  have q3 : ("check-from-account" == "check-record-to") = false := by decide
+  have q4 : ("validate-all" == "check-record-from") = false := by decide
+  have q5 : ("validate-all" == "check-record-to") = false := by decide
+  have q6 : ("validate-all" == "check-from-account") = false := by decide
+  have q7 : ("execute-all" == "check-record-from") = false := by decide
+  have q8 : ("execute-all" == "check-record-to") = false := by decide
+  have q9 : ("execute-all" == "check-from-account") = false := by decide
+  have q10 : ("execute-all" == "validate-all") = false := by decide
+  have q11 : ("set-record" == "check-record-from") = false := by decide
+  have q12 : ("set-record" == "check-record-to") = false := by decide
+  have q13 : ("set-record" == "check-from-account") = false := by decide
+  have q14 : ("set-record" == "validate-all") = false := by decide
+  have q15 : ("set-record" == "execute-all") = false := by decide
+  simp only [runStmts, handlerStmt, q1, q2, q3, q4, q5, q6, q7, q8, q9, q10, q11, q12, q13, q14, q15,
+    beq_self_eq_true, Bool.false_eq_true, ↓reduceIte, List.findSome?, execAll,
+    (handlerValidate_code cfg _ frm to).1, (handlerValidate_code cfg _ frm to).2.1, (handlerValidate_code cfg _ frm to).2.2,
+    (handlerExecute_code cfg _ frm to).1, (handlerExecute_code cfg _ frm to).2.1, (handlerExecute_code cfg _ frm to).2.2]
+  by_cases h1 : recGuard cfg.recKeyFrom s frm = true
+  · simp [h1]
+  by_cases h2 : recGuard cfg.recKeyTo s to = true
+  · simp [h1, h2]
+  by_cases h3 : frm ∈ s.hasKey
+  · cases hv : stakingValidate cfg s frm to with
+    | some e => simp [h1, h2, h3, hv]
+    | none =>
+      by_cases h4 : govRefuses cfg s frm to = true
+      · simp [h1, h2, h3, hv, h4]
+      · by_cases h5 : bankBlocked cfg s frm = true
+        · simp [h1, h2, h3, hv, h4, h5]
+        · simp [h1, h2, h3, hv, h4, h5]
+  · simp [h1, h2, h3]
+
+/-- the step function the driver runs is `step` -/
+theorem stepP_eq_step (s : State) (op : Op) :
+    stepP cfg Gen.C14.handlerOrder Gen.C14.migrateHandlers s op = step cfg s op := by
+  cases op <;> try rfl
+  simp only [stepP, step, handler_program_as_modelled]
+
+/-- and the spelled message the driver runs is `migrateMsg` -/
+theorem migrateMsgP_eq {H S : Type} (hash : List Nat → H) (recover : H → S → Option Addr) (pfx : List Nat)
+    (enc : Addr → List Nat) (s : State) (frm : Addr) (w : Spelling) (sig : S) :
+    migrateMsgP hash recover pfx enc cfg Gen.C14.handlerOrder Gen.C14.migrateHandlers s frm w sig =
+      migrateMsg hash recover pfx enc cfg s frm w sig := by
+  unfold migrateMsgP migrateMsg
+  split <;> simp only [handler_program_as_modelled]
+
 /-- **needs_target_signature**: an accepted migration carries a signature from which the (opaque) recovery function,
 applied to the (opaque) hash of prefix ++ source ++ target, yields exactly the target address -/
 theorem needs_target_signature {H S : Type} (hash : List Nat → H) (recover : H → S → Option Addr)
